@@ -1,7 +1,10 @@
 package main
 
 import (
+	"context"
+
 	"fmt"
+	"github.com/inspirer/textmapper/compiler"
 	"math/rand"
 	"regexp"
 	"sort"
@@ -13,7 +16,9 @@ import (
 )
 
 // c08.gen: end-to-end correspondence for runtime lookaheads. Random .tm grammars with conflict points
-//   stmt : 'k' (?= P0 & !P1) body -> K0 | 'k' (?= !P0) body -> K1 | ...
+//
+//	stmt : 'k' (?= P0 & !P1) body -> K0 | 'k' (?= !P0) body -> K1 | ...
+//
 // are compiled by the current tree, generated into Go packages and run on inputs realising every reachable
 // combination of predicate outcomes. The predicates are decidable by prefix matching on the next tokens.
 func init() {
@@ -55,13 +60,13 @@ type c08Alt struct {
 }
 
 type c08Gram struct {
-	name                                      string
-	ntok                                      int
-	preds                                     []c08Pred
-	points                                    [][]c08Alt
+	name                                        string
+	ntok                                        int
+	preds                                       []c08Pred
+	points                                      [][]c08Alt
 	cancellable, cancFetch, recursive, optimize bool
-	rightList                                 bool
-	corrupted, restricted, nested, reused     bool
+	rightList                                   bool
+	corrupted, restricted, nested, reused       bool
 }
 
 func litsName(lits []c08Lit) string {
@@ -638,6 +643,9 @@ var c08ErrRe = regexp.MustCompile(`failed with ([a-z ]+):\n((?:\t\(\?= [^\n]*\)\
 func c08Gen(rng *rand.Rand, n int, args []string) {
 	dump := len(args) > 0 && args[0] == "dump"
 	c08NestedWithoutRecursive = len(args) > 0 && args[0] == "nonrec-nested"
+	if !c08NestedWithoutRecursive && !dump {
+		c08NameClash(rng)
+	}
 	var pkgs []*genPkg
 	var grams []*c08Gram
 	for i := 0; i < n; i++ {
@@ -981,4 +989,45 @@ func c08ParseExpr(line string) string {
 		ps = append(ps, sx.List(sx.Int(j), sx.Bool(neg)))
 	}
 	return sx.List(ps...)
+}
+
+// c08NameClash: two alternatives guarded by (?= notX) and (?= !X), where notX and X are two different nonterminals
+// (both predicates spell "lookahead_notX"). The conditions are not mutually exclusive, so the set must be rejected;
+// if it is accepted there must at least be a runtime decision that evaluates both predicates.
+func c08NameClash(rng *rand.Rand) {
+	for i := 0; i < 4; i++ {
+		x := []string{"A", "Pred", "Ok", "B1"}[i]
+		second := []string{"'(' 'b' 'b' ')'", "'(' 'a' 'b' ')'"}[rng.Intn(2)]
+		text := fmt.Sprintf(`language clash(go);
+
+lang = "clash"
+package = "x/clash"
+eventBased = true
+
+:: lexer
+
+'a': /a/
+'b': /b/
+'(': /\(/
+')': /\)/
+
+:: parser
+
+%%input S;
+
+S -> S :
+    (?= not%s) '(' 'b' ')'      -> First
+  | (?= !%s) %s    -> Second
+;
+
+%s : '(' 'a' ;
+not%s : '(' 'b' ')' ;
+`, x, x, second, x, x)
+		g, err := compiler.Compile(context.Background(), "clash.tm", text, compiler.Params{CheckOnly: true})
+		out := "(rejected)"
+		if err == nil && g != nil && g.Parser != nil && g.Parser.Tables != nil {
+			out = sx.List("accepted", sx.Int(len(g.Parser.Tables.Lookaheads)))
+		}
+		sx.Case("c08.gen.clash", sx.Str(text), out)
+	}
 }
